@@ -927,7 +927,8 @@ where
     T: Hash + Eq,
     str: Equivalent<T>,
 {
-    let mut to = default_position;
+    // A new rule cannot be placed further down than the end of the list.
+    let mut to = default_position.min(set.len());
 
     if let Some(rule_id) = after {
         let idx = set.get_index_of(rule_id).ok_or(InsertPushRuleError::UnknownRuleId)?;
